@@ -96,6 +96,7 @@ cdef class QueryScheduler:
 cdef class _ServiceBrowserBase(RecordUpdateListener):
 
     cdef public cython.set types
+    cdef public cython.dict _types_by_key
     cdef public object zc
     cdef DNSCache _cache
     cdef object _loop
